@@ -2,7 +2,8 @@
 //
 // Bounded exhaustive product: mount structures (<=3 mounts over a prefix alphabet, one level of
 // nesting, each sub-app with/without its own ErrorHandler, root with default/custom handler,
-// with/without a root catch-all route, nested mount done before/after the parent is mounted)
+// with/without a root catch-all route, nested mount done before/after the parent is mounted,
+// DefaultCtx funnel / CustomCtx funnel)
 // x request paths x URL forms x error sources x EVERY iteration order of the map range in
 // App.ErrorHandler (owned through the overlay: verifrt.MapOrder + an odometer-driven chooser)
 // x <=1 non-default choice in the map ranges of mount.go.
@@ -852,8 +853,8 @@ func runProgram(r *core.Run, l *core.Local, p *program, pi int, fctx *fasthttp.R
 					l.Violate(sig, "the error handler that receives the error depends on Go map iteration order (two orders of the same program and request give different handlers)",
 						cs,
 						map[string]any{"order_A": map[string]any{"ErrorHandler_appList_order": orderText(keys, a.order), "mount_go_deviation": devText(a.dev), "result": a.o.view()},
-							"order_B":             map[string]any{"ErrorHandler_appList_order": orderText(keys, b.order), "mount_go_deviation": devText(b.dev), "result": b.o.view()},
-							"distinct_results":    len(cell.seen)},
+							"order_B":          map[string]any{"ErrorHandler_appList_order": orderText(keys, b.order), "mount_go_deviation": devText(b.dev), "result": b.o.view()},
+							"distinct_results": len(cell.seen)},
 						"identical result under every iteration order: "+wantText(want))
 					continue
 				}
